@@ -225,7 +225,7 @@ def run(ctx):
     ctx.coq()
     drv = ctx.build_driver('Table')
     h = ctx.build_harness('table_wb.c', whitebox='Table')
-    henv = dict(os.environ, H_TIMEOUT='5')       # a case takes microseconds; a hang is an observation
+    henv = dict(os.environ, H_TIMEOUT='3')       # a case takes microseconds; a hang is an observation
     run_impl = lambda cs: ctx.run_lines(h, cs, env=henv, timeout=3000)[1]
     run_model = lambda cs: ctx.run_lines(drv, cs, args=['model'])[1]
     run_spec = lambda cs: ctx.run_lines(drv, cs, args=['spec'])[1]
@@ -240,13 +240,17 @@ def run(ctx):
         return
 
     def feed_all(cases, chunk=250):
-        """chunked, stops as soon as the property has failed on concrete inputs (a mutant that
-        hangs would otherwise cost the per-case watchdog thousands of times)"""
-        for i in range(0, len(cases), chunk):
-            if len(d.oracle_fail) >= 3:
+        """chunked (first chunks small), stops as soon as the property has failed on a concrete
+        input: a change that makes the library hang would otherwise cost the per-case watchdog
+        thousands of times"""
+        i, step = 0, 25
+        while i < len(cases):
+            if d.oracle_fail:
                 return False
-            d.feed(cases[i:i + chunk])
-        return len(d.oracle_fail) < 3
+            d.feed(cases[i:i + step])
+            i += step
+            step = min(chunk, step * 2)
+        return not d.oracle_fail
 
     d.feed(CORPUS, 'corpus')
     n = 1500 if quick else 60000
